@@ -111,9 +111,6 @@ type c15Case struct {
 	vcsMode  string // none one list both
 	exists   bool
 	mread    byte
-	cli      bool   // drive the cobra command (cmd.MakeApp ... endorse --flags) instead of endorse.Context
-	cliDir   string // scratch directory holding the firmware file (and the S_CRTM side file)
-	sideAlt  bool   // name the S_CRTM side file <image>.scrtm.pb instead of <stem>_scrtm_ver.pb
 }
 
 // captureStdout runs f with os.Stdout redirected and returns what was printed.
@@ -249,11 +246,7 @@ func c15Run(cs c15Case) (c15Result, string) {
 	var panicked bool
 	var pmsg, stack string
 	out := captureStdout(func() {
-		if cs.cli {
-			panicked, pmsg, stack = Guard(func() { err = c15RunCLI(cs, v0, rec, &signed) })
-		} else {
-			panicked, pmsg, stack = Guard(func() { err = endorse.VirtualFirmware(ctx) })
-		}
+		panicked, pmsg, stack = Guard(func() { err = endorse.VirtualFirmware(ctx) })
 	})
 	res := c15Result{res: "ok", signed: signed, vcss: vcss}
 	if panicked {
@@ -515,34 +508,6 @@ func runC15(c *Ctx) {
 				r.tdx = false
 				r.fam = "not_a_guid"
 				one(c15Case{r: r, mo: mo, dry: dry, cand: "rc0", budget: 1, vcsMode: "one", mread: 'N'}, "failing")
-			}
-		}
-	}
-	// ---- through the real command line: flag wiring of cmd/endorse.go and cmd/flags.go ----
-	cliDir, err := os.MkdirTemp("", "verif-c15-")
-	if err != nil {
-		panic(err)
-	}
-	defer os.RemoveAll(cliDir)
-	for _, tech := range [][2]bool{{true, false}, {false, true}, {true, true}} {
-		for _, svn := range []uint32{0, 5} { // S_CRTM side file absent / present
-			for _, snap := range []bool{false, true} {
-				for _, mo := range []bool{false, true} {
-					for _, dry := range []bool{false, true} {
-						r := base
-						r.im, r.snp, r.tdx, r.vm, r.svn, r.tsvn = images[0], tech[0], tech[1], 2, svn, svn
-						r.cl, r.commit = 77, nil
-						if !tech[0] {
-							r.vm = 0
-						}
-						if tech[1] {
-							r.shapes, r.early = []string{"c3-standard-4", "c3-standard-8"}, snap
-						}
-						cs := c15Case{r: r, mo: mo, dry: dry, snap: snap, ow: svn != 0, cand: map[bool]string{false: "", true: "rc3"}[snap],
-							budget: 2, vcsMode: "one", exists: svn != 0 && !snap, mread: 'M', cli: true, cliDir: cliDir}
-						one(cs, "cli")
-					}
-				}
 			}
 		}
 	}
